@@ -503,8 +503,9 @@ def run_offset(task, tier, seed, col):
 
 # ------------------------------------------------------------------------------------- ndarray methods follow the quantity's current state
 
-METHODS = ["max", "min", "sum", "mean", "std", "var", "cumsum", "conj", "copy", "ravel", "squeeze", "transpose", "flatten", "round", "prod", "argmax", "any", "astype", "item", "clip", "tolist"]
-M_UNITS = {"length": ["meter", "centimeter", "kilometer", "inch"], "frequency": ["hertz", "terahertz", "kilohertz"]}
+METHODS = ["max", "min", "sum", "mean", "std", "var", "cumsum", "conj", "copy", "ravel", "squeeze", "transpose", "flatten", "round", "prod", "argmax", "any", "astype", "item", "clip", "tolist", "cumprod"]
+M_UNITS = {"length": ["meter", "centimeter", "kilometer", "inch"], "frequency": ["hertz", "terahertz", "kilohertz"], "dimensionless": ["percent", "ppm", "dimensionless", "permille"]}
+FUNCTION_TWINS = ("max", "min", "sum", "mean", "std", "var", "cumsum", "prod", "cumprod", "ravel", "squeeze", "transpose")
 
 
 def _method_call(q, m):
@@ -541,7 +542,7 @@ def case_methods(case, col=None):
     init = case["init"]
     mag = float(init[0]) if case["rank"] == "scalar" else (np.array(float(init[0])) if case["rank"] == "zero" else (np.array(init[:4], dtype=float).reshape(2, 2) if case["rank"] == "two" else np.array(init, dtype=float)))
     q = ureg.Quantity(mag, case["unit"])
-    kind = "length"
+    kind = "dimensionless" if case["unit"] in M_UNITS["dimensionless"] else "length"
     changes = calls_after_change = 0
     for step in case["steps"]:
         op = step[0]
@@ -554,12 +555,19 @@ def case_methods(case, col=None):
                 raise Violation(f"ndarray_method_depends_on_history:{step[1]}:outcome", f"{case}: after the steps before it, q.{step[1]}() -> {got!r}; on a fresh quantity of the same magnitude and unit -> {want!r}")
             if sg == "ok" and not _same_result(np, got, want):
                 raise Violation(f"ndarray_method_depends_on_history:{step[1]}", f"{case}: q = {q!r}; q.{step[1]}() = {got!r}, on a fresh quantity of the same magnitude and unit {want!r}")
+            if sg == "ok" and step[1] in FUNCTION_TWINS and hasattr(q.magnitude, "shape"):
+                # the method is the function: q.m() denotes what np.m(q) denotes (the function forms are checked against NumPy by the recipes)
+                sf, viaf = attempt(lambda: getattr(np, step[1])(q))
+                if sf == "ok" and not cmp_norm(normalise(env.R(), got), normalise(env.R(), viaf)):
+                    raise Violation(f"ndarray_method_differs_from_function:{step[1]}", f"{case}: q = {q!r}; q.{step[1]}() = {got!r}, np.{step[1]}(q) = {viaf!r}")
             if sg == "ok" and step[1] in ("max", "min", "sum", "mean", "std", "cumsum", "copy", "ravel", "flatten", "round", "clip") and (not hasattr(got, "_units") or dict(got._units) != dict(q._units)):
                 raise Violation(f"ndarray_method_wrong_unit:{step[1]}", f"{case}: q = {q!r}; q.{step[1]}() = {got!r}")
             continue
         changes += 1
         if op == "ito":
             q.ito(M_UNITS[kind][step[1] % len(M_UNITS[kind])])
+        elif op == "ctx" and kind == "dimensionless":
+            continue
         elif op == "ctx":
             kind = "frequency" if kind == "length" else "length"
             q.ito(M_UNITS[kind][step[1] % len(M_UNITS[kind])], "sp")
@@ -574,9 +582,11 @@ def case_methods(case, col=None):
 
 
 def _methods_strategy():
-    step = st.one_of(st.tuples(st.just("call"), st.sampled_from(METHODS)), st.tuples(st.just("call"), st.sampled_from(METHODS)), st.tuples(st.just("ito"), st.integers(0, 3)), st.tuples(st.just("ctx"), st.integers(0, 2)),
+    # (two half-lists and a coin rather than one long list: Hypothesis tends to repeat earlier index choices, which starves the tail of a long pool)
+    meth = st.one_of(st.sampled_from(METHODS[: len(METHODS) // 2]), st.sampled_from(METHODS[len(METHODS) // 2:]), st.sampled_from(["cumprod", "prod", "var", "cumsum"]))
+    step = st.one_of(st.tuples(st.just("call"), meth), st.tuples(st.just("call"), meth), st.tuples(st.just("ito"), st.integers(0, 3)), st.tuples(st.just("ctx"), st.integers(0, 2)),
                      st.tuples(st.just("imul"), st.sampled_from([2, 3, 0.5])), st.tuples(st.just("base"), st.just(0)), st.tuples(st.just("set"), st.integers(1, 9)))
-    return st.fixed_dictionaries({"rank": st.sampled_from(["scalar", "zero", "one", "two"]), "unit": st.sampled_from(M_UNITS["length"]),
+    return st.fixed_dictionaries({"rank": st.sampled_from(["scalar", "zero", "one", "two"]), "unit": st.one_of(st.sampled_from(M_UNITS["length"]), st.sampled_from(M_UNITS["dimensionless"])),
                                   "init": st.lists(st.integers(1, 40).map(lambda v: v + 0.26), min_size=4, max_size=5), "steps": st.lists(step, min_size=2, max_size=8).map(lambda l: [list(x) for x in l])})
 
 
